@@ -45,6 +45,7 @@ type loopInfo struct {
 	latches []*ssa.BasicBlock
 	ordinal int
 	minPos  token.Pos
+	frameArrs []string
 }
 
 type frame struct {
@@ -88,6 +89,9 @@ type exec struct {
 	specFns map[string]*specFn
 	pureFns map[string]bool
 	noAssume bool
+	frame    *frameInfo
+	fnName   string
+	fnPos    token.Pos
 }
 
 func (x *exec) note(f string, a ...interface{}) { x.notes[fmt.Sprintf(f, a...)] = true }
@@ -194,7 +198,7 @@ func (x *exec) oblig(fr *frame, s *State, kind, label string, pos token.Pos, goa
 		if label != "" {
 			base += ":" + label
 		}
-		o := &Oblig{Base: base, Kind: kind, Func: x.fn.String(), pos: pos, Hyp: s.reach, Goal: goal, C: x.c, Props: props, Inputs: x.inputs}
+		o := &Oblig{Base: base, Kind: kind, Func: x.fnName, pos: pos, Hyp: s.reach, Goal: goal, C: x.c, Props: props, Inputs: x.inputs}
 		if pos.IsValid() {
 			o.Pos = x.p.Fset.Position(pos)
 		}
@@ -494,6 +498,10 @@ func (x *exec) enterLoop(fr *frame, li *loopInfo, sin *State) *State {
 		sort.Strings(names)
 		for _, n := range names {
 			s.heap[n] = x.c.FreshConst(n, x.h.sorts[n])
+			if x.frame != nil && !x.frame.star && fr.top && !frameExempt(n) && s.epoch == x.frame.entry.epoch {
+				x.assume(s, x.frameQuant(x.frame, n, x.h.get(x.frame.entry, n, x.h.sorts[n]), s.heap[n]))
+				li.frameArrs = append(li.frameArrs, n)
+			}
 		}
 		for g := range modGlobals {
 			delete(s.globals, g)
@@ -547,7 +555,7 @@ func (x *exec) checkBackEdges(fr *frame) {
 		}
 		done[li] = true
 		invs := x.loopInvs(fr, li)
-		if len(invs) == 0 {
+		if len(invs) == 0 && len(li.frameArrs) == 0 {
 			continue
 		}
 		ins := x.incomingFor(fr, li.head, true)
@@ -568,6 +576,13 @@ func (x *exec) checkBackEdges(fr *frame) {
 		for i, inv := range invs {
 			g := x.evalBool(inv.E, x.loopEnv(fr, li, s))
 			x.oblig(fr, s, fmt.Sprintf("loop%d.inv%d.preserve", li.ordinal, i+1), inv.Label, li.minPos, g, inv.Props)
+		}
+		for _, n := range li.frameArrs {
+			sortN := x.h.sorts[n]
+			r := x.c.FreshConst("fr.r", "Int")
+			j := x.c.FreshConst("fr.j", x.c.I())
+			x.oblig(fr, s.clone(), fmt.Sprintf("loop%d.frame", li.ordinal), shortHeapName(n), li.minPos,
+				x.frameBody(x.frame, n, x.h.get(x.frame.entry, n, sortN), x.h.get(s, n, sortN), r, j), nil)
 		}
 		for phi, v := range saved {
 			fr.vals[phi] = v
